@@ -61,13 +61,13 @@ type BM25FParams struct {
 // RefIndex is an exhaustive-scan reference: per document, per field token
 // counts and lengths; nothing is shared with the code under test.
 type RefIndex struct {
-	N     int
-	TF    []map[string][4]int
-	Len   [][4]int
-	Avg   [4]float64
-	DF    map[string]int
-	P     BM25FParams
-	Elig  []bool // eligibility under the options in force (set by caller)
+	N    int
+	TF   []map[string][4]int
+	Len  [][4]int
+	Avg  [4]float64
+	DF   map[string]int
+	P    BM25FParams
+	Elig []bool // eligibility under the options in force (set by caller)
 }
 
 func BuildRef(cmds []Cmd, p BM25FParams) *RefIndex {
